@@ -131,6 +131,11 @@ Definition binary_expr (l : expr Q) (op : binop) (r : expr Q) (sl sr : script) :
   let right_paren := negb drop_right_hp && negb escape_hack && negb between_hack && negb as_hack in
   wrap left_paren sl ++ [ws " "] ++ rbinop op ++ [ws " "] ++ wrap right_paren sr.
 
+(* the bounds of `x BETWEEN a AND b` are decided against the BETWEEN operator itself *)
+Definition between_bounds (op : binop) (lo hi : expr Q) (slo shi : script) : script :=
+  wrap (negb (t_drop_paren T (shape_key (shape_of lo)) (oper_key (OBin op)))) slo ++ [ws " AND "] ++
+  wrap (negb (t_drop_paren T (shape_key (shape_of hi)) (oper_key (OBin op)))) shi.
+
 Definition int_value (z : Z) : value := V TInt (Some (PInt z)).
 
 (* prepare_simple_expr (common = false) / prepare_simple_expr_common (common = true) *)
@@ -159,7 +164,14 @@ Fixpoint rexpr (common : bool) (e : expr Q) {struct e} : script :=
       match op, r with
       | BIn, ETuple [] => binary_expr one BEqual two [WVal (int_value 1)] [WVal (int_value 2)]
       | BNotIn, ETuple [] => binary_expr one BEqual one [WVal (int_value 1)] [WVal (int_value 1)]
-      | _, _ => binary_expr l op r (rexpr false l) (rexpr false r)
+      | _, _ =>
+          let sr := match r with
+                    | EBinary lo BAnd hi =>
+                        if is_between op then between_bounds op lo hi (rexpr false lo) (rexpr false hi)
+                        else rexpr false r
+                    | _ => rexpr false r
+                    end in
+          binary_expr l op r (rexpr false l) sr
       end
   | ESubQuery op q =>
       (match op with Some o => opt_text (t_sqop T (sqop_key o)) | None => [] end) ++
